@@ -29,7 +29,8 @@ import (
 	"helm.sh/helm/v4/pkg/strvals"
 )
 
-var c20Timeout = 10 * time.Second
+// generous: the machine may be heavily loaded; a real hang (endless loop) still trips it
+var c20Timeout = 45 * time.Second
 
 const c20MaxInput = 64 << 10
 
@@ -86,18 +87,18 @@ var c20SeedPlugin = []string{
 
 func c20SeedChartFiles() map[string][]byte {
 	return map[string][]byte{
-		"Chart.yaml": []byte("apiVersion: v2\nname: top\nversion: 1.2.3\ndescription: d\ntype: application\nkeywords: [a]\nmaintainers:\n- name: m\n  email: m@example.com\ndependencies:\n- name: sub\n  version: \">=0.1.0\"\n  repository: https://example.com\n  condition: sub.enabled\n  tags: [front]\n  import-values:\n  - data\n  - child: sect\n    parent: imported\n- name: sub\n  version: 0.1.0\n  repository: https://example.com\n  alias: other\n"),
-		"values.yaml": []byte("replicas: 1\nname: x\nsub:\n  enabled: true\n  k: parent\ntags:\n  front: true\nglobal:\n  g: 1\nlist: [a, b]\n"),
-		"values.schema.json": []byte(`{"$schema":"http://json-schema.org/draft-07/schema#","type":"object","properties":{"replicas":{"type":"integer","minimum":0},"name":{"type":"string"}},"required":["replicas"]}`),
-		"templates/_helpers.tpl": []byte("{{- define \"top.name\" -}}{{ .Values.name | default .Chart.Name | trunc 63 }}{{- end -}}\n{{- define \"top.rec\" -}}{{ include \"top.rec\" . }}{{- end -}}\n"),
-		"templates/cm.yaml": []byte("apiVersion: v1\nkind: ConfigMap\nmetadata:\n  name: {{ include \"top.name\" . }}\n  annotations:\n    helm.sh/hook: pre-install\n    helm.sh/hook-weight: \"{{ .Values.replicas }}\"\ndata:\n  v: {{ .Values.list | toYaml | nindent 4 }}\n  t: {{ tpl \"{{ .Values.name }}\" . | quote }}\n{{- range $k, $v := .Values.sub }}\n  {{ $k }}: {{ $v | quote }}\n{{- end }}\n  r: {{ required \"need name\" .Values.name }}\n"),
-		"templates/NOTES.txt": []byte("Release {{ .Release.Name }} in {{ .Release.Namespace }}\n"),
-		"crds/crd.yaml": []byte("apiVersion: apiextensions.k8s.io/v1\nkind: CustomResourceDefinition\nmetadata:\n  name: x.example.com\n"),
-		".helmignore": []byte("*.bak\n"),
-		"charts/sub/Chart.yaml": []byte("apiVersion: v2\nname: sub\nversion: 0.1.0\n"),
-		"charts/sub/values.yaml": []byte("enabled: true\nk: v\nexports:\n  data:\n    exported: 1\nsect:\n  s: t\n"),
+		"Chart.yaml":                    []byte("apiVersion: v2\nname: top\nversion: 1.2.3\ndescription: d\ntype: application\nkeywords: [a]\nmaintainers:\n- name: m\n  email: m@example.com\ndependencies:\n- name: sub\n  version: \">=0.1.0\"\n  repository: https://example.com\n  condition: sub.enabled\n  tags: [front]\n  import-values:\n  - data\n  - child: sect\n    parent: imported\n- name: sub\n  version: 0.1.0\n  repository: https://example.com\n  alias: other\n"),
+		"values.yaml":                   []byte("replicas: 1\nname: x\nsub:\n  enabled: true\n  k: parent\ntags:\n  front: true\nglobal:\n  g: 1\nlist: [a, b]\n"),
+		"values.schema.json":            []byte(`{"$schema":"http://json-schema.org/draft-07/schema#","type":"object","properties":{"replicas":{"type":"integer","minimum":0},"name":{"type":"string"}},"required":["replicas"]}`),
+		"templates/_helpers.tpl":        []byte("{{- define \"top.name\" -}}{{ .Values.name | default .Chart.Name | trunc 63 }}{{- end -}}\n{{- define \"top.rec\" -}}{{ include \"top.rec\" . }}{{- end -}}\n"),
+		"templates/cm.yaml":             []byte("apiVersion: v1\nkind: ConfigMap\nmetadata:\n  name: {{ include \"top.name\" . }}\n  annotations:\n    helm.sh/hook: pre-install\n    helm.sh/hook-weight: \"{{ .Values.replicas }}\"\ndata:\n  v: {{ .Values.list | toYaml | nindent 4 }}\n  t: {{ tpl \"{{ .Values.name }}\" . | quote }}\n{{- range $k, $v := .Values.sub }}\n  {{ $k }}: {{ $v | quote }}\n{{- end }}\n  r: {{ required \"need name\" .Values.name }}\n"),
+		"templates/NOTES.txt":           []byte("Release {{ .Release.Name }} in {{ .Release.Namespace }}\n"),
+		"crds/crd.yaml":                 []byte("apiVersion: apiextensions.k8s.io/v1\nkind: CustomResourceDefinition\nmetadata:\n  name: x.example.com\n"),
+		".helmignore":                   []byte("*.bak\n"),
+		"charts/sub/Chart.yaml":         []byte("apiVersion: v2\nname: sub\nversion: 0.1.0\n"),
+		"charts/sub/values.yaml":        []byte("enabled: true\nk: v\nexports:\n  data:\n    exported: 1\nsect:\n  s: t\n"),
 		"charts/sub/values.schema.json": []byte(`{"type":"object","properties":{"k":{"type":"string"}}}`),
-		"charts/sub/templates/s.yaml": []byte("kind: Secret\napiVersion: v1\nmetadata:\n  name: {{ .Release.Name }}-s\nstringData:\n  k: {{ .Values.k }}\n  g: {{ .Values.global.g }}\n"),
+		"charts/sub/templates/s.yaml":   []byte("kind: Secret\napiVersion: v1\nmetadata:\n  name: {{ .Release.Name }}-s\nstringData:\n  k: {{ .Values.k }}\n  g: {{ .Values.global.g }}\n"),
 	}
 }
 
@@ -356,7 +357,9 @@ func c20FilesToTar(r *rand.Rand, files map[string][]byte, prefix string, weird b
 
 func c20ExploreCorpus() []any {
 	var out []any
-	add := func(t string, d []byte) { out = append(out, c20Case{Kind: "explore", Explore: &c20ExploreC{Target: t, Data: d}}) }
+	add := func(t string, d []byte) {
+		out = append(out, c20Case{Kind: "explore", Explore: &c20ExploreC{Target: t, Data: d}})
+	}
 	for _, s := range c20SeedStrvals {
 		add("strvals", []byte(s))
 	}
@@ -743,7 +746,6 @@ func c20RunProv(e *c20ExploreC, step *string) bool {
 	provenance.DigestFile(cp)
 	return err == nil
 }
-
 
 func c20ExecExplore(e *c20ExploreC) c20Obs {
 	obs := c20Obs{}
